@@ -40,7 +40,9 @@ HEADER_SETS = [[], ["X-Name: Value"], ["X-A:1", " X-B : v:1 "], ["X-Tab:\tT ", "
                ["X-List: a,b,c", "Cookie: a=1; b=\"2,3\"", "X-Comma: ,x,"],
                # whitespace other than blanks and tabs around name and value (a YAML block scalar, `printf '...\n'`, CRLF from a file):
                # "trimmed" means trimmed
-               ["X-Token: abc\n", "X-Crlf: v1\r\n", "\nX-Lead: \n v2 \n", "X-Feed:\x0cv3\x0c"]]
+               ["X-Token: abc\n", "X-Crlf: v1\r\n", "\nX-Lead: \n v2 \n", "X-Feed:\x0cv3\x0c"],
+               # names the client also sets itself: the user's header must still arrive (next to the built-in one or instead of it)
+               ["Accept: application/graphql-response+json", "content-type: application/json; charset=utf-8", "User-Agent: my-tool/1.0"]]
 BAD_HEADERS = ["X-Name Value", ": Value", "X Name: Value", "X\tName: Value", ":", "   : v",
                # no colon at all, although what is there would make a fine header name
                "X-Api-Key", "Authorization", " XName ", "X-Name=Value"]
@@ -124,7 +126,7 @@ def main(run):
     os.makedirs(root)
     build.build_cli()
     qdocs = docs()
-    schema = gen_schema(rng, n_input=2)
+    schema = gen_schema(rng, n_input=2, underscore_types=(run.seed % 2 == 0))
     server_json = json.loads(render_json(schema, wrapped=True, builtins="scalars"))
     # non-ASCII text in the reply (descriptions are free text)
     server_json["data"]["__schema"]["types"][0]["description"] = "Beschreibung mit Umlauten äöü, ☃ und 日本語"
